@@ -12,7 +12,7 @@ LEVEL = "exploration"
 NEED = ("h4x",)
 RULE = ("input: a file holding objects of every interface and special-element kind (plain/linked/compressed/external H "
         "elements, Vdata+Vgroup with attributes, contiguous/chunked+deflate/unlimited SDS with attributes, GR image "
-        "with palette and attribute, annotations, a dataset created but never written, an old-style RLE raster image) built fault-free; it is opened read-only through H, V, SD, GR and "
+        "with palette and attribute, annotations, a dataset created but never written, a second shorter record dataset, an old-style RLE raster image) built fault-free; it is opened read-only through H, V, SD, GR and "
         "AN at once and a generated program of 5..40 calls drawn from the full read, inquiry and mutation vocabulary "
         "(~60 mutators with generated arguments) is run, then everything is closed. Oracle: file and external file "
         "byte-identical (sha1) and the stdio write log contains no write on them; each mutator of the must-fail list "
@@ -103,6 +103,13 @@ READERS = [
     lambda p: p.call("i", "SDreaddata", V("s4"), i32s(0), None, i32s(50), Out(100)),
     lambda p: p.call("i", "SDreaddata", V("s5"), i32s(0), None, i32s(50), Out(100)),
     lambda p: p.call("i", "SDreaddata", V("s4"), i32s(3000), None, i32s(10), Out(20)),
+    # record datasets: whole, the last record, and reads that reach one or more records past the end
+    lambda p: p.call("i", "SDreaddata", V("s6"), i32s(0), None, i32s(3), Out(6)),
+    lambda p: p.call("i", "SDreaddata", V("s6"), i32s(3), None, i32s(1), Out(2)),
+    lambda p: p.call("i", "SDreaddata", V("s6"), i32s(0), None, i32s(4), Out(8)),
+    lambda p: p.call("i", "SDreaddata", V("s6"), i32s(5), None, i32s(1), Out(2)),
+    lambda p: p.call("i", "SDreaddata", V("s2"), i32s(6), None, i32s(1), Out(4)),
+    lambda p: p.call("i", "SDreaddata", V("s2"), i32s(2), None, i32s(5), Out(20)),
 ]
 
 
@@ -155,6 +162,10 @@ def run_case(case):
         xp.call("i", "SDsetcompress", V("s"), 3, struct.pack("=i", 2) + bytes(16))
         xp.call("i", "SDwritedata", V("s"), i32s(0), None, i32s(8192), big.tobytes())
         xp.call("i", "SDendaccess", V("s"))
+        # a second record dataset, shorter than "unl": reads at and beyond its end are then below the file's record count
+        xp.call("i", "SDcreate", V("sd"), "unl2", 22, 1, i32s(0), bind="s")
+        xp.call("i", "SDwritedata", V("s"), i32s(0), None, i32s(3), np.array([11, -12, 13], dtype="=i2").tobytes())
+        xp.call("i", "SDendaccess", V("s"))
         xp.call("i", "SDend", V("sd"))
         xp.call("i", "DFR8addimage", "combo.hdf", bytes((i * 3) & 0xff for i in range(30)), 6, 5, 11)
         rx = run(xp, cwd=d)
@@ -176,15 +187,21 @@ def run_case(case):
                 q.call("i", "SDselect", V("sd"), i, bind="s")
                 ls.append(q.call("i", "SDreaddata", V("s"), i32s(0), None, i32s(8192), Out(16384)))
                 q.call("i", "SDendaccess", V("s"))
+            for i in (2, 6):
+                # the record datasets: number of records and the records
+                q.call("i", "SDselect", V("sd"), i, bind="s")
+                ls.append(q.call("i", "SDgetinfo", V("s"), OutS(100), Out(4), Out(4), Out(4), Out(4)))
+                ls.append(q.call("i", "SDreaddata", V("s"), i32s(0), None, i32s(3), Out(12)))
+                q.call("i", "SDendaccess", V("s"))
             q.call("i", "SDend", V("sd"))
             rq = run(q, cwd=d)
-            return [(rq.res[l].ret, rq.res[l].bufs[0]) if l in rq.res else None for l in ls]
+            return [(rq.res[l].ret, tuple(rq.res[l].bufs)) if l in rq.res else None for l in ls]
 
         big_ref = big_reader()
         p = Prog()
         must = []
         p.call("i", "SDstart", "combo.hdf", acc, bind="sd")
-        for i in range(6):
+        for i in range(7):
             p.call("i", "SDselect", V("sd"), i, bind="s%d" % i)
         p.call("i", "SDgetdimid", V("s0"), 0, bind="d0")
         p.call("i", "Hopen", "combo.hdf", acc, 0, bind="f")
@@ -228,7 +245,7 @@ def run_case(case):
         for x in ("aidl", "aidc", "aidx"):
             p.call("i", "Hendaccess", V(x))
         lclose = p.call("i", "Hclose", V("f"))
-        for i in range(6):
+        for i in range(7):
             p.call("i", "SDendaccess", V("s%d" % i))
         lend = p.call("i", "SDend", V("sd"))
         wlog = os.path.join(d, "wlog")
@@ -292,8 +309,8 @@ def run_case(case):
                         break
             labels.add("rw_noedit")
         if fail is None and rr.done and big_reader() != big_ref:
-            fail = dict(kind="content of a multi-block n-bit / skipping-Huffman dataset differs after a session "
-                             "without edits", mode=case["mode"])
+            fail = dict(kind="content of a multi-block n-bit / skipping-Huffman dataset, or the record count / records "
+                             "of a record dataset, differ after a session without edits", mode=case["mode"])
         if fail is not None:
             fail["program"] = p.text()[:5000]
             return CaseResult(labels=labels, failure=fail, sample=dict(mode=case["mode"], ops=case["ops"][:20]))
